@@ -79,6 +79,67 @@ def explore(fn, init, step, edge=None, start_block=None, start_index=0,
     return ins
 
 
+def must_flow(fn, init, step, edge=None, observe=None):
+    """Forward must-dataflow: the fact set at a point is the intersection over
+    all paths (join = intersection), iterated to a fixpoint from the optimistic
+    top.  Polynomial where `explore` enumerates paths; less precise only for
+    correlated branches.  After the fixpoint, `observe(node, facts)` is called
+    once per element with the final facts in front of it.
+    step/edge have the signatures used by `explore`; they must be monotone."""
+    ins = {fn.entry: frozenset(init)}
+    work = [fn.entry]
+    nb = fn.node_block()
+
+    def run_block(b, facts, obs):
+        bd = fn.blocks[b]
+        cur = facts
+        for e in bd['e']:
+            n = fn.nodes[e]
+            if n is None:
+                continue
+            if obs is not None:
+                obs(n, cur)
+            cur = step(n, cur)
+            if cur is None:
+                return None, None, None
+        term = fn.node(bd.get('term')) if bd.get('term') is not None else None
+        if term is not None and term['k'] in ('ret', 'goto', 'break', 'continue') and term['i'] not in nb:
+            if obs is not None:
+                obs(term, cur)
+            cur = step(term, cur)
+            if cur is None:
+                return None, None, None
+        cond = fn.node(bd.get('cond')) if bd.get('cond') is not None else None
+        return cur, term, cond
+    rounds = 0
+    while work:
+        rounds += 1
+        if rounds > 200000:
+            raise Budget('must_flow does not converge in %s' % fn.name)
+        b = work.pop()
+        cur, term, cond = run_block(b, ins[b], None)
+        if cur is None or fn.blocks[b].get('noreturn'):
+            continue
+        for idx, s in enumerate(fn.blocks[b]['s']):
+            if s is None:
+                continue
+            f2 = cur
+            if edge is not None:
+                f2 = edge(b, term, cond, idx, s, cur)
+                if f2 is None:
+                    continue
+            f2 = frozenset(f2)
+            old = ins.get(s)
+            new = f2 if old is None else (old & f2)
+            if old is None or new != old:
+                ins[s] = new
+                work.append(s)
+    if observe is not None:
+        for b, facts in ins.items():
+            run_block(b, facts, observe)
+    return ins
+
+
 def branch_polarity(fn, term, idx):
     """True / False for the two-way branches of if/while/for/do/&&/||/?:,
     None otherwise (switch, goto...)."""
